@@ -41,7 +41,7 @@ func archiveInfoRoles(w *World) (offset, step, points string) {
 	if t := w.Lib.Type("ArchiveInfo"); t != nil {
 		if st, ok := t.Type().Underlying().(*types.Struct); ok {
 			for i := 0; i < st.NumFields(); i++ {
-				n := st.Field(i).Name()
+				n := fieldName(st.Field(i))
 				if n != step && n != points {
 					offset = n
 				}
@@ -61,7 +61,7 @@ func fieldType(w *World, typ, field string) string {
 		return ""
 	}
 	for i := 0; i < st.NumFields(); i++ {
-		if st.Field(i).Name() == field {
+		if fieldName(st.Field(i)) == field {
 			s := st.Field(i).Type().String()
 			if j := strings.LastIndex(s, "."); j >= 0 {
 				s = s[j+1:]
@@ -271,7 +271,7 @@ func rulesC06(w *World, r *Report) {
 				for _, e := range ph.Edges {
 					s := newExprCtx(w).expr(e)
 					got += s + " | "
-					if s == "(*whispertool.Header).Size(p0)" {
+					if s == "whispertool.Header.Size(p0)" {
 						okInit = true
 					}
 					if bo, isBo := e.(*ssa.BinOp); isBo && bo.Op == token.ADD && bo.X == ssa.Value(ph) {
@@ -295,7 +295,7 @@ func rulesC06(w *World, r *Report) {
 			if st, ok := in.(*ssa.Store); ok {
 				if _, fname, ok := fieldAddrOf(st.Addr); ok && fname == "maxRetention" {
 					got = newExprCtx(w).expr(st.Val)
-					okMR = got == "(*whispertool.ArchiveInfo).MaxRetention(p2[(len(p2) - 1)])"
+					okMR = got == "whispertool.ArchiveInfo.MaxRetention(p2[(len(p2) - 1)])"
 				}
 			}
 		})
@@ -324,9 +324,9 @@ func rulesC06(w *World, r *Report) {
 		r.Check(ok, "C06.R6", name, w.pos(f.Pos()), "computes "+want, name+" computes "+strings.Join(got, " / ")+"; the format requires "+want)
 	}
 	chk("ArchiveInfo.pointOffsetAt", "(p0."+offF+" +:uint32 (p1 *:uint32 12))", false)
-	chk("ArchiveInfo.pointIndex", "whispertool.floorMod(((whispertool.Timestamp).Sub(p2, p1) /:int64 p0."+stepF+"), p0."+ptsF+")", false)
+	chk("ArchiveInfo.pointIndex", "whispertool.floorMod((whispertool.Timestamp.Sub(p2, p1) /:int64 p0."+stepF+"), p0."+ptsF+")", false)
 	chk("ArchiveInfo.intervalForWrite", "(p1 -:int64 whispertool.floorMod(p1, p0."+stepF+"))", false)
-	chk("ArchiveInfo.interval", `^(\(\(p1 -:int64 whispertool\.floorMod\(p1, p0\.`+stepF+`\)\) \+:int64 p0\.`+stepF+`\)|\(whispertool\.Timestamp\)\.Add\(\(\*whispertool\.ArchiveInfo\)\.intervalForWrite\(p0, p1\), p0\.`+stepF+`\))$`, true)
+	chk("ArchiveInfo.interval", `^(\(\(p1 -:int64 whispertool\.floorMod\(p1, p0\.`+stepF+`\)\) \+:int64 p0\.`+stepF+`\)|whispertool\.Timestamp\.Add\(whispertool\.ArchiveInfo\.intervalForWrite\(p0, p1\), p0\.`+stepF+`\))$`, true)
 	if fm := need(w, r, "C06.R6", w.Lib, "floorMod"); fm != nil {
 		// floored modulo: returns x%y, or x%y+y when the remainder is non-zero and signs differ
 		var rs []string
@@ -368,7 +368,7 @@ func rulesC06(w *World, r *Report) {
 				rs = append(rs, newExprCtx(w).expr(rt.Results[0]))
 			}
 		}
-		ok := containsStr(rs, "p2."+offF) && containsStr(rs, "(*whispertool.ArchiveInfo).pointOffsetAt(p2, (*whispertool.ArchiveInfo).pointIndex(p2, (*whispertool.Whisper).baseInterval(p0, p2)#0, p1))")
+		ok := containsStr(rs, "p2."+offF) && containsStr(rs, "whispertool.ArchiveInfo.pointOffsetAt(p2, whispertool.ArchiveInfo.pointIndex(p2, whispertool.Whisper.baseInterval(p0, p2)#0, p1))")
 		// the offset-only return must be under base == 0
 		r.Check(ok, "C06.R6", "getPointOffset", w.pos(gp.Pos()), "archive offset when empty, else pointOffsetAt(pointIndex(base, t))", "getPointOffset returns "+strings.Join(rs, " / "))
 	}
@@ -385,7 +385,7 @@ func rulesC06(w *World, r *Report) {
 				got = strings.Join(es, " | ")
 				hasRead, hasFirst := false, false
 				for _, e := range es {
-					if strings.HasPrefix(e, "(*whispertool.Whisper).baseInterval(p0, ") && strings.HasSuffix(e, "#0") {
+					if strings.HasPrefix(e, "whispertool.Whisper.baseInterval(p0, ") && strings.HasSuffix(e, "#0") {
 						hasRead = true
 					}
 					if strings.HasSuffix(e, "[0].Time") && strings.Contains(e, "alignPoints(") {
@@ -401,7 +401,7 @@ func rulesC06(w *World, r *Report) {
 		guardNote := ""
 		for _, c := range callsTo(au, fn(w.Lib, "Whisper.putPointAt")) {
 			es := callArgExprs(w, c)
-			if regexp.MustCompile(`alignPoints\(.*\)\[\(i\d+ \+ 1\)\]$`).MatchString(es[1]) && strings.HasPrefix(es[2], "(*whispertool.ArchiveInfo).pointOffsetAt(") && strings.Contains(es[2], ".Time") {
+			if regexp.MustCompile(`alignPoints\(.*\)\[\(i\d+ \+ 1\)\]$`).MatchString(es[1]) && strings.HasPrefix(es[2], "whispertool.ArchiveInfo.pointOffsetAt(") && strings.Contains(es[2], ".Time") {
 				okW = true
 			}
 			if inLoopWith(c.Block()) == false {
@@ -419,7 +419,7 @@ func rulesC06(w *World, r *Report) {
 		for _, c := range callsIn(pp) {
 			if isMethodCall(c, fbPath, "FileBuffer", "WriteAt") {
 				es := callArgExprs(w, c)
-				ok = strings.HasPrefix(es[1], "(*whispertool.Point).AppendTo(&p1, ") && es[2] == "p2"
+				ok = strings.HasPrefix(es[1], "whispertool.Point.AppendTo(p1, ") && es[2] == "p2"
 			}
 		}
 		r.Check(ok, "C06.R6", "putPointAt", w.pos(pp.Pos()), "writes the encoded point at the given offset", "putPointAt does not write Point.AppendTo's bytes at the offset it was given")
